@@ -35,9 +35,7 @@ def _guarded(argv):
     never look like a verdict: exit status 2, never 1."""
     try:
         return main(argv)
-    except SystemExit:
-        raise
-    except BaseException:
+    except BaseException:      # SystemExit included: gsim never calls sys.exit() itself, so it came from elsewhere
         import traceback
         sys.__stderr__.write("HARNESS-ERROR (uncaught exception in gsim)\n" + traceback.format_exc())
         sys.__stdout__.write("HARNESS-ERROR uncaught exception in gsim, see stderr\n")
